@@ -446,7 +446,45 @@ func handle(req Request) Response {
 			if !setup(fmt.Sprintf("CREATE TABLE %s (%s)", n, strings.Join(cols, ", "))) {
 				return resp
 			}
-			for _, row := range t.Rows {
+			rowsToLoad := t.Rows
+			if len(rowsToLoad) > 1500 {
+				// a big table (C07, many groups): rows without NULLs and negative numbers are stored 400 to a statement, with the
+				// flusher's tick every ten statements (the timer is off here, and a cache of dirty pages only would refuse them)
+				plain := func(row []Val) bool {
+					for _, v := range row {
+						if v.T == "n" || ((v.T == "i" || v.T == "I") && v.V < 0) {
+							return false
+						}
+					}
+					return true
+				}
+				var names []string
+				for _, c := range t.Cols {
+					names = append(names, c.N)
+				}
+				k, stmts := 0, 0
+				for k < len(rowsToLoad) && plain(rowsToLoad[k]) {
+					var tuples []string
+					for ; k < len(rowsToLoad) && len(tuples) < 400 && plain(rowsToLoad[k]); k++ {
+						var vs []string
+						for _, v := range rowsToLoad[k] {
+							vs = append(vs, lit(v))
+						}
+						tuples = append(tuples, "("+strings.Join(vs, ", ")+")")
+					}
+					if !setup(fmt.Sprintf("INSERT INTO %s (%s) VALUES %s", n, strings.Join(names, ", "), strings.Join(tuples, ", "))) {
+						return resp
+					}
+					if stmts++; stmts%10 == 0 {
+						if err := storage.VerifTickAll(); err != nil {
+							resp.Setup = "flush while loading: " + err.Error()
+							return resp
+						}
+					}
+				}
+				rowsToLoad = rowsToLoad[k:]
+			}
+			for _, row := range rowsToLoad {
 				var cs, vs []string
 				for i, v := range row {
 					if v.T == "n" {
